@@ -3,7 +3,8 @@
    repository on every run); [C16_tables_say_what_the_proofs_need] is the obligation that
    breaks when the code stops closing a peer on error, stops re-registering channels,
    inverts the Exiting() test, registers exiting objects on reconnect, drops the negative-size
-   refusal or starts the pump before the lookupd channels exist. *)
+   refusal, starts the pump before the lookupd channels exist, or leaves an nsqlookupd out of the
+   channel query for any reason other than an unknown address (e.g. the state of its TCP peer). *)
 From Coq Require Import List NArith ZArith Bool.
 From RecordUpdate Require Import RecordUpdate.
 From NSQV Require Import gen.Consts gen.SyncTab model.Judge model.Sync
@@ -152,9 +153,43 @@ Proof. exact repo_precreate_exact. Qed.
 Print Assumptions C16_precreate_exact.
 
 Theorem C16_precreate_all_fail : forall ls t,
-  (forall k, In k ls -> asked k = true -> answers k = false) -> query repo_cfg ls t = [].
+  (forall k, In k ls -> asked repo_cfg k = true -> answers k = false) -> query repo_cfg ls t = [].
 Proof. exact repo_precreate_all_fail. Qed.
 Print Assumptions C16_precreate_all_fail.
+
+(* ... and the nsqd -> nsqlookupd TCP connection plays no part in it (note that C16_precreate_query and
+   C16_precreate_exact have no hypothesis on k_state): link lists that differ only on the TCP side
+   — lp.state, unread bytes, whether the nsqlookupd holds the connection, the registrations on it, the
+   fault scripts — give the same query result ... *)
+Theorem C16_precreate_ignores_connection_state : forall ls ls' t,
+  Forall2 same_http_side ls ls' -> query repo_cfg ls t = query repo_cfg ls' t.
+Proof. exact repo_precreate_ignores_tcp_state. Qed.
+Print Assumptions C16_precreate_ignores_connection_state.
+
+(* ... and no TCP fault script (refused, accepted-then-closed, stalled, cut, arbitrary reply bytes), no
+   heartbeat and no notification served while it is active takes an nsqlookupd out of the set GetTopic
+   asks: lp.Info outlives the connection *)
+Theorem C16_asked_survives_tcp_faults : forall os s s' n k fs,
+  run repo_cfg (Run init) os = Run s ->
+  forallb (fun o => match o with FAccept _ _ | FReply _ _ | Tick | Deliver _ => true | _ => false end) fs = true ->
+  run repo_cfg (Run s) fs = Run s' ->
+  nth_error (links s) n = Some k -> asked repo_cfg k = true ->
+  exists k', nth_error (links s') n = Some k' /\ asked repo_cfg k' = true.
+Proof. exact repo_asked_survives_tcp_faults. Qed.
+Print Assumptions C16_asked_survives_tcp_faults.
+
+(* (one nsqlookupd that knows channel 2 of topic 7; its TCP connection is cut and every reconnect refused,
+   its HTTP interface is up: the peer is in stateDisconnected, the channel is pre-created and receives the
+   first message; under "ask only the connected peers" it would not exist) *)
+Theorem C16_asking_disconnected_matters :
+  match run repo_cfg (Run init) lookupd_tcp_down_http_up, run cfg_ask_only_connected (Run init) lookupd_tcp_down_http_up with
+  | Run s, Run s' => map k_state (links s) = [st_disconnected] /\
+                     map (fun j => (o_c (getO (objs s) j), d_q (getD (dats s) j))) (chans_of (objs s) 0) = [(2, [1])]%N /\
+                     chans_of (objs s') 0 = []
+  | _, _ => False
+  end.
+Proof. exact asking_disconnected_matters. Qed.
+Print Assumptions C16_asking_disconnected_matters.
 
 (* (two nsqlookupds, the second one's HTTP interface down, the first knows channel 2 of topic 7: it is
    pre-created and receives the first message; under "any error => no data" it would not exist) *)
@@ -266,3 +301,18 @@ Example C16_witness_precreate :
   | Crashed => False
   end.
 Proof. vm_compute. reflexivity. Qed.
+
+(* the hypotheses of the two connection-state theorems are met: after an accept-then-close loop and an
+   invalid length prefix the peer is disconnected, still asked, and its link differs from a connected
+   one only on the TCP side *)
+Example C16_witness_connection_state :
+  match run repo_cfg (Run init) [Reconfigure [0]; FKnown 0 [(7, 2)]%N],
+        run repo_cfg (Run init) [Reconfigure [0]; FKnown 0 [(7, 2)]%N;
+                                 FReply 0 [RBytes [255; 255; 255; 255]%N]; Tick; FAccept 0 [AClose; AClose]; Tick; Tick] with
+  | Run s, Run s' =>
+      map k_state (links s) = [st_connected] /\ map k_state (links s') = [st_disconnected] /\
+      map (asked repo_cfg) (links s') = [true] /\
+      Forall2 same_http_side (links s) (links s') /\ query repo_cfg (links s') 7%N = [2%N]
+  | _, _ => False
+  end.
+Proof. vm_compute. repeat split; try reflexivity. repeat constructor. Qed.
